@@ -289,6 +289,75 @@ def table_resave_correspondence(ctx: Ctx):
                         req_l, out_l, fmap=c01.grid_line_model, describe=dsc_l)
 
 
+def doc_model_task(task):
+    """one document for the document-level model (Model/Document.lean): the state of the REAL open document read by the
+    harness's own readers (harness/docstate.py), and the real dumps before the save, after one and after two save / open
+    cycles, in the driver's reply format.  Returned as protocol lines; the parent pipes them through `nmdriver`."""
+    warnings.simplefilter("ignore")
+    kind, name, budget = task
+    sub = Ctx(PID, "quick", 0)
+    import docstate
+    from numbers_parser import Document
+    tmp = tempfile.mkdtemp(prefix="c02d-")
+    try:
+        try:
+            if kind == "generated":
+                p0 = os.path.join(tmp, "zero.numbers")
+                build_generated(name).save(p0)
+                doc = Document(p0)
+            elif kind == "corpus":
+                doc = Document(str(CORPUS / name))
+            else:
+                doc = Document(str(REPO / "tests/data" / name) if kind == "fixture" else None)
+            p1, p2 = os.path.join(tmp, "one.numbers"), os.path.join(tmp, "two.numbers")
+            doc.save(p1)
+            doc1 = Document(p1)
+            doc1.save(p2)
+            doc2 = Document(p2)
+        except Exception:  # noqa: BLE001  unreadable documents are outside the domain; a failing re-save is reported by cycle()
+            return common.sub_result(sub, None)
+        stats: dict = {}
+        # the state is read from the open document after its save (`_to_buffer` assigns the style ids during the save);
+        # that the save leaves the open document as it was is the oracle `save-changes-open-document` of cycle()
+        body, flags, interner = docstate.state_request("", doc, budget, stats, doc_budget=2 * budget)
+        lines = []
+        for op, d in (("dump", doc), ("resave", doc1), ("resave2", doc2)):
+            lines.append((f"doc {op} {body}", docstate.dump_line(d, flags, interner), f"doc {op} <{kind} {name}>"))
+        cells = sum(len(r) for fl in flags if fl is not None for r in fl)
+        stats["tables modelled"] = sum(1 for fl in flags if fl is not None)
+        stats["cells modelled"] = cells
+        stats["documents"] = 1
+        return common.sub_result(sub, {"lines": lines, "stats": stats, "nontrivial": cells > 0, "name": name})
+    finally:
+        shutil.rmtree(tmp, ignore_errors=True)
+
+
+def document_model_correspondence(ctx: Ctx, tasks):
+    """real documents vs the composed model: `dump d` on the state read from the open document vs the real dump (ties the
+    readers and `dump`), `dump (loadDoc (saveDoc d))` vs the real dump of the re-opened copy, and the same after a second
+    cycle — document by document."""
+    from checks import c01
+    # quick: at most `budget` cells per table are modelled, larger tables are stand-ins printed `P` on both sides (counted)
+    budget = 1500 if ctx.quick else 60000
+    payloads = common.run_parallel(ctx, doc_model_task, [(k, n, budget) for k, n in tasks])
+    req, out, dsc = [], [], []
+    totals: dict = {}
+    for p in payloads:
+        if not p:
+            continue
+        for r, o, d in p["lines"]:
+            req.append(r)
+            out.append(o)
+            dsc.append(d)
+        for k, v in p["stats"].items():
+            totals[k] = totals.get(k, 0) + v
+        if p["nontrivial"]:
+            ctx.mark(("doc-model", p["name"]))
+    c01.correspond_long(ctx, "whole document: model dump / resave / resave2 on the state read from the real open document vs the "
+                             "real dumps before the save, after one and after two save/open cycles", req, out, describe=dsc)
+    ctx.extra["document_model"] = totals
+
+
 def run(ctx: Ctx):
     warnings.simplefilter("ignore")
     data = REPO / "tests" / "data"
@@ -303,6 +372,9 @@ def run(ctx: Ctx):
     common.run_parallel(ctx, cycle, tasks)
     string_table_correspondence(ctx)
     table_resave_correspondence(ctx)
+    seen = set()
+    doc_tasks = [(k, n) for k, n, _ in tasks if not ((k, n) in seen or seen.add((k, n)))]
+    document_model_correspondence(ctx, doc_tasks)
     ctx.extra["exploration_note"] = ("the document dump comparison is implementation-level exploration; the string-table "
                                      "histories and the re-saved tables are model correspondence")
 
